@@ -94,7 +94,7 @@ def _run_all(pid, shards, jobs):
                     got = conn.recv() if conn.poll(0.2) else _dead(sh, f"shard process died (exit code {p.exitcode})")
                 except (EOFError, OSError):
                     got = _dead(sh, f"shard process died (exit code {p.exitcode})")
-            if got is None and time.time() - t0 > float(os.environ.get("VERIF_KILL_FACTOR", "4")) * sh.get("budget", 60) + 120:
+            if got is None and time.time() - t0 > float(os.environ.get("VERIF_KILL_FACTOR", "8")) * sh.get("budget", 60) + 180:
                 p.kill()
                 got = _dead(sh, "shard overran 3x its budget and was killed (a path did not return)")
             if got is None:
